@@ -131,7 +131,8 @@ Proof.
   - (* MSetAttr *)
     destruct Ho as [Hsz Hc]. destruct (setattr_lemma sz count Hc Hsz) as [H1 _]. rewrite H1. reflexivity.
   - (* MSdCreate *)
-    rewrite sdcreate_lemma. reflexivity.
+    rewrite sdcreate_lemma. unfold truth, sdcreate_too_many_vars, H4_MAX_NC_VARS.
+    destruct (Z.leb_spec 5000 (q_nsets st)); destruct (Z.ltb_spec (q_nsets st) 5000); try lia; reflexivity.
   - (* MResetMax *)
     pose proof (reset_negative_keeps req sys (open_count (q_slots st)) (q_slots st)) as Hk.
     destruct (m_reset_maxopen req sys (open_count (q_slots st)) (q_slots st)) as [r slots]. simpl in Hk.
